@@ -161,15 +161,19 @@ def run_pipeline(texts, tag):
             with open(path) as fh:
                 return json.load(fh)
         res = harness.run_ops([{"op": "gen", "text": t, "order": ALL_TARGETS, "fresh": True} for t in texts])
+        # what the command writes when several targets are requested at once: ONE parsed model, the generators in the CLI order.
+        # The validators judge the single-target output; `shared_diff` ties that verdict to the multi-target run.
+        shared = harness.run_ops([{"op": "gen", "text": t, "order": ALL_TARGETS, "fresh": False} for t in texts])
         out = []
         reqs = []
         where = []
-        for t, r in zip(texts, res):
+        for t, r, sh in zip(texts, res, shared):
             item = {"text": t, "targets": {}}
             out.append(item)
             if "runs" not in r:
                 item["error"] = {k: v for k, v in r.items() if k != "id"}
                 continue
+            shruns = {x["lang"]: x for x in sh.get("runs", [])}
             for run in r["runs"]:
                 lang = run["lang"]
                 ent = {k: v for k, v in run.items() if k not in ("files", "lang")}
@@ -177,6 +181,11 @@ def run_pipeline(texts, tag):
                 if "files" not in run:
                     continue
                 ent["files"] = run["files"]
+                other = shruns.get(lang, {}).get("files")
+                if other is None:
+                    ent["shared_diff"] = ["<no output in the multi-target run>"]
+                else:
+                    ent["shared_diff"] = sorted(k for k in set(other) | set(run["files"]) if other.get(k) != run["files"].get(k))
                 if lang in EXTRACTOR:
                     mod = importlib.import_module(EXTRACTOR[lang])
                     try:
